@@ -160,7 +160,7 @@ def runner_blocking(ctx):
     return res
 
 runner_retrytiming_notbefore = make_cmd_runner("TIMING retry-not-before-delay", ["retrytiming"], "retrytiming ", select="notbefore/",
-    oracle="an attempt started before the delay announced by OnRetryScheduled had elapsed, or a negative delay was scheduled")
+    oracle="an attempt started before the delay announced by OnRetryScheduled had elapsed, or a negative delay was scheduled, or a delay was scheduled that extends past the remaining max duration (also when the delay function itself takes 40 ms)")
 runner_retrytiming_maxduration = make_cmd_runner("TIMING retry-max-duration", ["retrytiming"], "retrytiming ", select="maxduration/",
     oracle="an attempt was started after a failure that was handled when the max duration had already elapsed, or the execution did not end with ExceededError")
 
@@ -213,8 +213,9 @@ PROPS["C03"] = {
         "Failsafe.Tie.Breaker.tie_openRemaining", "Failsafe.Tie.Breaker.tie_setNext", "Failsafe.Tie.Breaker.tie_halfOpenCap",
         "Failsafe.Tie.Breaker.tie_closedCap", "Failsafe.Tie.Breaker.tie_failureRate",
     ],
-    "diff": [{"slice": "breaker", "n_quick": 300, "n_thorough": 3000, "seeds_thorough": 6, "n_search": 3000}],
-    "rule": "breaker slice through the virtual clock hook: configurations over count / ratio / period-count / period-rate failure thresholds x "
+    "diff": [{"slice": "breaker", "n_quick": 300, "n_thorough": 3000, "seeds_thorough": 6, "n_search": 3000},
+             {"slice": "classify", "n_quick": 150, "n_thorough": 1500, "seeds_thorough": 3, "n_search": 1500}],
+    "rule": "classify slice (see C12): what a breaker with handle conditions records as a failure, through executions and through the standalone Record* API; breaker slice through the virtual clock hook: configurations over count / ratio / period-count / period-rate failure thresholds x "
             "none / success threshold / success ratio x fixed delay (0-199 ns, or the maximal Duration: 'open until closed by hand') / delay function; 120 (quick) or 600 (thorough) operations per case from "
             "{RecordSuccess, RecordFailure, execution success/failure through the policy, TryAcquirePermit, Open, HalfOpen, Close, clock advance}; "
             "advances drawn from {0, 1 ns, remaining delay, remaining-1, to the next slice boundary, boundary-1, period+x, random}; "
